@@ -4,13 +4,14 @@ package main
 // shard's coordinator) hands index ranges of a family to short-lived child processes of this same
 // binary and merges what they report.
 //
-// Why child processes: on the plain build every Parse that stops before the end of its input leaves
-// its tokenizer goroutine blocked on the channel send for ever (finding F12a of property C12, ~3 KB
-// each). A child therefore stops at a case boundary once runtime.NumGoroutine() exceeds recycleAt
-// and reports the index to resume at; the coordinator starts a fresh process there. A child is also
-// what may die (panic on the tokenizer goroutine, fatal stack overflow, out of memory in a runaway
-// loop): the coordinator then re-runs the range with a journal to pinpoint the case, reports it and
-// resumes behind it, so the rest of the shard is still enumerated.
+// Why child processes: a child is what may die (panic on the tokenizer goroutine, fatal stack
+// overflow, out of memory in a runaway loop): the coordinator then re-runs the index range with a
+// journal to pinpoint the case, reports it and resumes behind it, so the rest of the shard is still
+// enumerated. And on a tree without the repair of finding F12a (property C12) every Parse that stops
+// before the end of its input leaves its tokenizer goroutine blocked on the channel send for ever
+// (~3 KB each): a child stops at a case boundary once runtime.NumGoroutine() exceeds recycleAt (or
+// after maxPerChild cases) and reports the index to resume at; the coordinator starts a fresh
+// process there.
 
 import (
 	"encoding/binary"
@@ -67,6 +68,7 @@ type runner struct {
 	full    []*instance
 	edge    []*instance
 	bothOn  []*instance
+	deep    []*instance
 	probe   []*instance // validity probes of the padded space
 	byID    map[string]*instance
 	digits  []int
@@ -104,6 +106,7 @@ func newRunner(ctx *bex.Ctx) *runner {
 	r.full = get(fullConfigs(), true)
 	r.edge = get(edgeConfigs(), true)
 	r.bothOn = get(bothOnConfigs(), true)
+	r.deep = get([]cfgSpec{{"generic", "deep28", false, false}}, true)
 	r.probe = get([]cfgSpec{{"generic", "std", true, false}, {"value", "value", true, false}}, false)
 	return r
 }
@@ -262,26 +265,25 @@ func (r *runner) timeRatio(fam string, i int64, sub int, in *instance, desc stri
 		return
 	}
 	ctx := r.ctx
-	// The collector is switched off inside the timed runs and run between them (with a memory limit
-	// as a safety net): its pacing depends on the heap the process happens to have and turned a clean
-	// 4x into anything between 3x and 11x from run to run.
+	// Steady-state measurement: the collector is off during the whole series (a memory limit is the
+	// safety net) and one untimed call at the largest size comes first. Otherwise the numbers depend
+	// on the heap and stack the process happens to have: the collector's pacing turned a clean 4x
+	// into anything between 3x and 11x, and every collection halves the idle goroutine stack, so that
+	// the 16 KiB run found its stack in place while the 32 KiB run had to grow (and fault in) 128 MB
+	// again: 7x where the steady state shows 2x.
 	oldPercent := debug.SetGCPercent(-1)
-	oldLimit := debug.SetMemoryLimit(5 << 30)
+	oldLimit := debug.SetMemoryLimit(2500 << 20)
 	defer func() {
 		debug.SetGCPercent(oldPercent)
 		debug.SetMemoryLimit(oldLimit)
 	}()
+	runtime.GC()
 	measure := func(size, runs int) (time.Duration, bool) {
 		src := gen(size)
 		info := caseInfo{family: fam, index: i, sub: sub, cfg: in.id, src: src, desc: fmt.Sprintf("%s; timing run at %d bytes", desc, len(src))}
 		best := time.Duration(math.MaxInt64)
-		last := time.Duration(0)
 		for k := 0; k < runs; k++ {
-			if k == 0 || last > 20*time.Millisecond {
-				runtime.GC() // outside the timed window; cheap runs leave next to no garbage
-			}
 			res, dt := r.run(info, in)
-			last = dt
 			if res.panicked || res.neither {
 				r.judge(info, in, res)
 				return 0, false
@@ -291,6 +293,9 @@ func (r *runner) timeRatio(fam string, i int64, sub int, in *instance, desc stri
 			}
 		}
 		return best, true
+	}
+	if _, ok := measure(ratioSizes[len(ratioSizes)-1], 1); !ok { // warm-up
+		return
 	}
 	var t [3]time.Duration
 	for j, s := range ratioSizes {
@@ -304,6 +309,9 @@ func (r *runner) timeRatio(fam string, i int64, sub int, in *instance, desc stri
 			return ratioFloor
 		}
 		return d
+	}
+	if os.Getenv("VERIF_C04_DEBUG") != "" {
+		fmt.Fprintf(os.Stderr, "timing %s %d/%d %s: %v %v %v\n", fam, i, sub, in.id, t[0], t[1], t[2])
 	}
 	for j := 0; j < 2; j++ {
 		if t[j] >= ratioFloor {
@@ -708,9 +716,10 @@ func explore(ctx *bex.Ctx, f *family) {
 				}
 			}
 		}
+		ctx.Eval() // the case was executed; the process that counted it died
 		ctx.Outcome("process-died")
 		ctx.Violate(fmt.Sprintf("worker process died (%v) while executing this case", jr.err), jr.journal,
-			"returns an AST/function or an error value; no panic on another goroutine, no fatal runtime error", jr.log, classifyCrash(jr.journal))
+			"returns an AST/function or an error value; no panic on another goroutine, no fatal runtime error", jr.log, classifyDeath(jr.journal, jr.log))
 		from = c + 1
 		if crashes >= maxCrashes {
 			incomplete(fmt.Sprintf("given up after %d process deaths in this shard", crashes))
@@ -723,10 +732,27 @@ func explore(ctx *bex.Ctx, f *family) {
 // ---------------------------------------------------------------------------------------------
 // replay and crash classification
 
-func classifyCrash(repro map[string]any) string {
+// classifyCrash names the known finding a process death on the recorded case belongs to; the driver
+// calls it without the log of the dead process.
+func classifyCrash(repro map[string]any) string { return classifyDeath(repro, "") }
+
+// classifyDeath: F04b — the table has at least deepTableLevels priority levels, the case is a
+// nesting of at least 20 000 brackets, and (if the log is at hand) the process died of the runtime's
+// fatal stack overflow. Otherwise configuration and input shape of the known panics.
+func classifyDeath(repro map[string]any, log string) string {
 	cfg, _ := repro["config"].(string)
 	spec, ok := parseCfgID(cfg)
 	if !ok {
+		return ""
+	}
+	if t := tables[spec.table]; t != nil && len(t.ops) >= deepTableLevels {
+		fam, _ := repro["family"].(string)
+		idx, ok := repro["index"].(float64)
+		if fam == famDeepTable.name && ok && int64(idx) < famDeepTable.size(true) {
+			if _, _, n := decodeDeep(int64(idx)); n >= 20000 && (log == "" || strings.Contains(log, "fatal error: stack overflow")) {
+				return findingF04b
+			}
+		}
 		return ""
 	}
 	src, ok := srcOf(repro)
